@@ -249,28 +249,35 @@ def channel_requires(name, states, params, prefix=None):
     return r
 
 
-def _update_contract(name):
+def _factory(name, prefix):
+    import importlib
+    cls = getattr(importlib.import_module(CHANNELS[name]["mod"]), name)
+    return (lambda: cls()) if prefix == name else (lambda: cls().change_name(prefix))
+
+
+def _update_contract(name, prefix=None):
     spec = CHANNELS[name]
-    target = f"{spec['mod']}:{name}.update_states"
+    prefix = prefix or name
+    target = f"{spec['mod']}:{name}.update_states" + ("" if prefix == name else f"#renamed:{prefix}")
 
     def inputs():
-        st, pa = channel_inputs(name)
+        st, pa = channel_inputs(name, prefix)
         return {"states": st, "dt": S("dt"), "v": S("v"), "params": pa}
 
     def requires(a):
-        return channel_requires(name, a["states"], a["params"]) + dom_dt(a["dt"]) + dom_v(a["v"])
+        return channel_requires(name, a["states"], a["params"], prefix) + dom_dt(a["dt"]) + dom_v(a["v"])
     ens = {}
     for s in spec["states"]:
-        ens[f"{name}_{s} in [0,1]"] = (lambda key: lambda a, r: in01(r[key].e))(f"{name}_{s}")
+        ens[f"{prefix}_{s} in [0,1]"] = (lambda key: lambda a, r: in01(r[key].e) if key in r else z3.BoolVal(False))(f"{prefix}_{s}")
     ens["returns exactly its own states"] = lambda a, r: z3.BoolVal(sorted(r.keys()) == sorted(a["states"].keys()))
     for s, g, extra in spec["gates"]:
-        ens[f"{name}_{s} follows the closed-form update of its own gate {g}"] = (
-            lambda s, g: lambda a, r: r[f"{name}_{s}"].e == gate_closed(name, g, a["states"][f"{name}_{s}"].e, a["dt"].e, a["v"], a["params"]))(s, g)
+        ens[f"{prefix}_{s} follows the closed-form update of its own gate {g}"] = (
+            lambda s, g: lambda a, r: (r[f"{prefix}_{s}"].e == gate_closed(name, g, a["states"][f"{prefix}_{s}"].e, a["dt"].e, a["v"], a["params"], prefix)) if f"{prefix}_{s}" in r else z3.BoolVal(False))(s, g)
     callees = tuple(f"{spec['mod']}:{name}.{g}" for _, g, _ in spec["gates"])
     if spec["solver"]:
         callees += (f"jaxley.solver_gate:{spec['solver']}",)
     REG.add(Contract(target, inputs=inputs, requires=requires, ensures=ens, callees=callees,
-                     boxes=lambda a: {}))
+                     boxes=lambda a: {}, self_factory=_factory(name, prefix)))
     return target
 
 
@@ -288,43 +295,46 @@ def gate_terms(name, g, v, params, prefix=None):
     return GATES[c.target]["kind"], uf_result(c, a)
 
 
-def gate_closed(name, g, x, dt, v, params):
-    kind, (p, q) = gate_terms(name, g, v, params)
+def gate_closed(name, g, x, dt, v, params, prefix=None):
+    kind, (p, q) = gate_terms(name, g, v, params, prefix)
     if kind == "ab":
         xinf = p.e / (p.e + q.e)
         return xinf + (x - xinf) * E(-dt * (p.e + q.e))
     return p.e + (x - p.e) * E(-dt / q.e)
 
 
-def gate_steady(name, g, v, params):
-    kind, (p, q) = gate_terms(name, g, v, params)
+def gate_steady(name, g, v, params, prefix=None):
+    kind, (p, q) = gate_terms(name, g, v, params, prefix)
     return p.e / (p.e + q.e) if kind == "ab" else p.e
 
 
 UPDATE_TARGETS = [_update_contract(n) for n in CHANNELS]
+UPDATE_TARGETS_RENAMED = [_update_contract(n, "Xq7") for n in CHANNELS]
 
 
-def _init_contract(name):
+def _init_contract(name, prefix=None):
     spec = CHANNELS[name]
-    target = f"{spec['mod']}:{name}.init_state"
+    prefix = prefix or name
+    target = f"{spec['mod']}:{name}.init_state" + ("" if prefix == name else f"#renamed:{prefix}")
 
     def inputs():
-        st, pa = channel_inputs(name)
+        st, pa = channel_inputs(name, prefix)
         return {"states": st, "v": S("v"), "params": pa, "delta_t": S("dt")}
 
     def requires(a):
-        return channel_requires(name, a["states"], a["params"]) + dom_dt(a["delta_t"]) + [a["v"].e >= -120, a["v"].e <= 60]
+        return channel_requires(name, a["states"], a["params"], prefix) + dom_dt(a["delta_t"]) + [a["v"].e >= -120, a["v"].e <= 60]
     ens = {"returns exactly its own states": lambda a, r: z3.BoolVal(sorted(r.keys()) == sorted(a["states"].keys()))}
     for s, g, extra in spec["gates"]:
-        ens[f"{name}_{s} == steady state of its own gate {g}"] = (
-            lambda s, g: lambda a, r: r[f"{name}_{s}"].e == gate_steady(name, g, a["v"], a["params"]))(s, g)
-        ens[f"{name}_{s} in [0,1]"] = (lambda s: lambda a, r: in01(r[f"{name}_{s}"].e))(s)
+        ens[f"{prefix}_{s} == steady state of its own gate {g}"] = (
+            lambda s, g: lambda a, r: (r[f"{prefix}_{s}"].e == gate_steady(name, g, a["v"], a["params"], prefix)) if f"{prefix}_{s}" in r else z3.BoolVal(False))(s, g)
+        ens[f"{prefix}_{s} in [0,1]"] = (lambda s: lambda a, r: in01(r[f"{prefix}_{s}"].e) if f"{prefix}_{s}" in r else z3.BoolVal(False))(s)
     callees = tuple(f"{spec['mod']}:{name}.{g}" for _, g, _ in spec["gates"])
-    REG.add(Contract(target, inputs=inputs, requires=requires, ensures=ens, callees=callees, boxes=lambda a: {}))
+    REG.add(Contract(target, inputs=inputs, requires=requires, ensures=ens, callees=callees, boxes=lambda a: {}, self_factory=_factory(name, prefix)))
     return target
 
 
 INIT_TARGETS = [_init_contract(n) for n in CHANNELS]
+INIT_TARGETS_RENAMED = [_init_contract(n, "Xq7") for n in CHANNELS]
 
 
 # ---- synapses ---------------------------------------------------------------------------------------------
